@@ -254,7 +254,8 @@ class ControllerApplication:
             # answer the request with our name...
             self._send_address_claimed(self._device_address)
         else:
-            for subscriber in self._subscribers_request:
+            # iterate over a snapshot: a callback may unsubscribe itself
+            for subscriber in list(self._subscribers_request):
                 subscriber(src_address, dest_address, pgn)
 
     def send_message(self, priority, parameter_group_number, data):
